@@ -413,3 +413,75 @@ Definition no_multi_enum (defs : list attdef) (doc : adoc) : bool :=
 Theorem attrs_faithful_guarded : forall e defs doc, no_multi_enum defs doc = true ->
   (attr_errors true e defs doc = [] <-> attrs_valid e defs doc).
 Proof. intros e defs doc H. rewrite (attrs_guarded e defs doc H). apply attrs_correct. Qed.
+
+(** ---- several element types ---------------------------------------------------------------------- *)
+Lemma scan_tdoc_flat : forall e dm doc tbl,
+  snd (scan_tdoc false e dm doc tbl) = snd (validate_effs false e (all_effective_t dm doc) tbl) /\
+  isnil (fst (scan_tdoc false e dm doc tbl)) =
+  isnil (fst (validate_effs false e (all_effective_t dm doc) tbl)) &&
+  forallb (fun x => required_ok (dm (fst x)) (snd x)) doc.
+Proof.
+  intros e dm. unfold all_effective_t. induction doc as [|x doc IH]; intros tbl.
+  - cbn. auto.
+  - cbn [scan_tdoc flat_map forallb]. unfold scan_attrs. rewrite validate_effs_app.
+    destruct (validate_effs false e (effective (dm (fst x)) (snd x)) tbl) as [e1 t1].
+    destruct (IH t1) as [I1 I2].
+    destruct (scan_tdoc false e dm doc t1) as [e2 t2].
+    destruct (validate_effs false e (flat_map (fun x0 => effective (dm (fst x0)) (snd x0)) doc) t1) as [e3 t3].
+    cbn [fst snd] in *.
+    split; [exact I1|]. rewrite !isnil_app, I2, required_errs_nil.
+    destruct (isnil e1); destruct (isnil e3); destruct (required_ok (dm (fst x)) (snd x));
+      destruct (forallb (fun x0 => required_ok (dm (fst x0)) (snd x0)) doc); reflexivity.
+Qed.
+
+Theorem attrs_t_correct : forall e dm doc, attr_errors_t false e dm doc = [] <-> attrs_valid_t e dm doc.
+Proof.
+  intros e dm doc. unfold attr_errors_t, attrs_valid_t.
+  destruct (scan_tdoc_flat e dm doc (mkTbl [] [])) as [S1 S2].
+  destruct (validate_effs_ok e (all_effective_t dm doc) (mkTbl [] [])) as [V1 V2].
+  destruct (scan_tdoc false e dm doc (mkTbl [] [])) as [e1 tbl]. cbn [fst snd] in *.
+  rewrite <- isnil_true, isnil_app, andb_true_iff, S2, V1. cbn [declared used] in *.
+  rewrite !andb_true_iff, idcheck_spec, !forallb_forall, !Forall_forall.
+  rewrite isnil_true. split.
+  - intros [[[H1 [H2 _]] H3] H4]. split; [exact H3|]. split; [exact H1|]. split; [exact H2|].
+    assert (Hn : isnil (fst (validate_effs false e (all_effective_t dm doc) (mkTbl [] []))) = true).
+    { rewrite V1. apply andb_true_iff. split; [apply forallb_forall; exact H1|].
+      apply idcheck_spec. split; [exact H2|intros t _ []]. }
+    rewrite S1, (V2 Hn) in H4. exact (proj1 (check_idrefs_nil _) H4).
+  - intros (H3 & H1 & H2 & H4).
+    assert (Hn : isnil (fst (validate_effs false e (all_effective_t dm doc) (mkTbl [] []))) = true).
+    { rewrite V1. apply andb_true_iff. split; [apply forallb_forall; exact H1|].
+      apply idcheck_spec. split; [exact H2|intros t _ []]. }
+    split; [split; [split; [exact H1|split; [exact H2|intros t _ []]]|exact H3]|].
+    rewrite S1, (V2 Hn). apply (proj2 (check_idrefs_nil _)). exact H4.
+Qed.
+
+Theorem attrs_validb_t_correct : forall e dm doc, attrs_validb_t e dm doc = true <-> attrs_valid_t e dm doc.
+Proof.
+  intros e dm doc. unfold attrs_validb_t, attrs_valid_t.
+  rewrite !andb_true_iff, tnodup_correct, !forallb_forall, !Forall_forall. split.
+  - intros [[[H1 H2] H3] H4]. repeat split; auto. intros t Ht. apply tmem_in. apply H4. exact Ht.
+  - intros (H1 & H2 & H3 & H4). repeat split; auto. intros t Ht. apply tmem_in. apply H4. exact Ht.
+Qed.
+
+Theorem attrs_valid_t_perm : forall e dm doc doc', Permutation doc doc' ->
+  attrs_valid_t e dm doc -> attrs_valid_t e dm doc'.
+Proof.
+  intros e dm doc doc' P (H1 & H2 & H3 & H4). unfold attrs_valid_t.
+  assert (PE : Permutation (all_effective_t dm doc) (all_effective_t dm doc')).
+  { unfold all_effective_t. apply Permutation_flat_map. exact P. }
+  assert (PI : Permutation (flat_map id_toks (all_effective_t dm doc)) (flat_map id_toks (all_effective_t dm doc')))
+    by (apply Permutation_flat_map; exact PE).
+  assert (PR : Permutation (flat_map ref_toks (all_effective_t dm doc)) (flat_map ref_toks (all_effective_t dm doc')))
+    by (apply Permutation_flat_map; exact PE).
+  split; [apply (Permutation_Forall P); exact H1|]. split; [apply (Permutation_Forall PE); exact H2|].
+  split; [apply (Permutation_NoDup PI); exact H3|].
+  intros t Ht. apply (Permutation_in _ PI). apply H4. apply (Permutation_in _ (Permutation_sym PR)). exact Ht.
+Qed.
+
+Theorem ids_order_independent_t : forall e dm doc doc', Permutation doc doc' ->
+  (attr_errors_t false e dm doc = [] <-> attr_errors_t false e dm doc' = []).
+Proof.
+  intros e dm doc doc' P. rewrite !attrs_t_correct.
+  split; apply attrs_valid_t_perm; [exact P|apply Permutation_sym; exact P].
+Qed.
